@@ -46,6 +46,7 @@ var c07BugMuts = map[string]bool{
 	"second-create": true, "dup-op": true, "empty-title": true, "json-trailing": true,
 	// commit / dag level
 	"clock-equal": true, "clock-jump": true, "merge-with-ops": true, "foreign-root-merge": true,
+	"merge-clock-equal": true, "merge-clock-below": true,
 	// ref level
 	"ref-name-mismatch": true, "ref-to-blob": true, "ref-to-tree": true, "ref-bad-name": true,
 	// root level (a new bug)
@@ -58,6 +59,7 @@ var c07IdentMuts = map[string]bool{
 	"idv-ref-mismatch": true, "idv-empty-name": true, "idv-ctrl-char": true, "idv-tree-as-version": true, "idv-ref-to-blob": true,
 	"idv-fuzz":     false,
 	"idv-null-key": true, "idv-bad-key": true, "idv-times-string": true, "idv-no-nonce": true,
+	"idv-other-root": true, "idv-clock-decreases": true,
 }
 
 func (c07Driver) Gen(r *Rand, tier string) []json.RawMessage {
@@ -402,6 +404,22 @@ func (c07Driver) Run(raw json.RawMessage) Case {
 				return Case{Skip: "no second parent available"}
 			}
 			parents = []repository.Hash{base, c.Parents[0]}
+		case "merge-clock-equal", "merge-clock-below":
+			// a forged merge commit (no operations) whose clock is not above its parents', then a normal commit on
+			// top of it: the operations of the child would be ordered among those of its ancestors
+			c, _ := repoB.ReadCommit(base)
+			if len(c.Parents) == 0 {
+				return Case{Skip: "no second parent available"}
+			}
+			mEdit := pc.Edit
+			if in.Mut == "merge-clock-below" && mEdit > 1 {
+				mEdit--
+			}
+			mes := entries(mkOps())
+			mes = replace(mes, "edit-clock-", repository.TreeEntry{ObjectType: repository.Blob, Hash: emptyBlob, Name: fmt.Sprintf("edit-clock-%d", mEdit)})
+			mc := store(mes, base, c.Parents[0])
+			es = replace(es, "edit-clock-", repository.TreeEntry{ObjectType: repository.Blob, Hash: emptyBlob, Name: fmt.Sprintf("edit-clock-%d", mEdit+1)})
+			parents = []repository.Hash{mc}
 		case "foreign-root-merge":
 			otherHead, _ := repoB.ResolveRef("refs/bugs/" + string(other.Id()))
 			oc, _, _ := readCommitRaw(repoB, otherHead)
@@ -527,6 +545,42 @@ func (c07Driver) Run(raw json.RawMessage) Case {
 			es = []repository.TreeEntry{{ObjectType: repository.Tree, Hash: sub, Name: "version"}}
 		case "idv-ref-to-blob":
 			tip, direct = emptyBlob, true
+		case "idv-other-root":
+			// the same identity id (a byte-identical first version) on top of ANOTHER root commit, then a further
+			// version: not a descendant of what the victim holds
+			if in.Sit == "absent" {
+				return Case{Skip: "a foreign root of an unknown identity is simply a new identity"}
+			}
+			first, err := repoB.ReadCommit(repository.Hash(commits[0]))
+			must(err, "read first commit")
+			_ = repoB.LocalConfig().StoreString("user.name", "somebody else")
+			_ = repoB.LocalConfig().StoreString("user.email", "else@example.com")
+			root, err := repoB.StoreCommit(first.TreeHash)
+			must(err, "store other root")
+			if string(root) == commits[0] {
+				return Case{Skip: "could not make a distinct root commit"}
+			}
+			_ = repoB.LocalConfig().StoreString("user.name", "testuser")
+			_ = repoB.LocalConfig().StoreString("user.email", "testuser@example.com")
+			tip, direct = store(es, root), true
+		case "idv-clock-decreases":
+			// a version whose lamport time for a clock is lower than in the previous version
+			if in.Sit == "absent" {
+				return Case{Skip: "needs a known previous version"}
+			}
+			prev, _, err := readVersionBlob(repoB, commits[len(commits)-1])
+			must(err, "read previous version")
+			pm := map[string]interface{}{}
+			for k, v := range prev {
+				pm[k] = v
+			}
+			pm["times"] = map[string]interface{}{"bugs-edit": 50, "bugs-create": 50}
+			pm["unix_time"] = 1700000000
+			mid := store([]repository.TreeEntry{{ObjectType: repository.Blob, Hash: blobOf(pm), Name: "version"}}, base)
+			m["times"] = map[string]interface{}{"bugs-edit": 49, "bugs-create": 50}
+			m["unix_time"] = 1700000001
+			es[0].Hash = blobOf(m)
+			tip, direct = store(es, mid), true
 		default:
 			return Case{Skip: "unknown mutation " + in.Mut}
 		}
